@@ -13,6 +13,7 @@
 #undef isspace
 static int verif_isspace(int c) { return c == ' ' || (c >= '\t' && c <= '\r'); }
 #define isspace(c) verif_isspace(c)
+#include "zlib_ghost.h"   /* inflate/deflate by assumed contract; reached only by unit comp.sendframe */
 #include "websocket.c"
 #include "compression.c"
 #include "linux/jet_endian.c"
@@ -41,6 +42,8 @@ static const uint8_t *verif_wr_payload;  /* payload pointer / length of the last
 static size_t verif_wr_payload_len;
 static uint8_t verif_wr_payload_copy[2]; /* first two payload bytes (close code) */
 static int verif_wr_ret;                 /* what the socket layer answers */
+static bool verif_wr_payload_readable;   /* the payload window handed to the socket layer lies inside a live buffer (comp.sendframe) */
+static bool verif_wr_check_window;
 
 static int stub_read_exactly(void *this_ptr, size_t num, read_handler handler, void *ctx)
 {
@@ -58,6 +61,7 @@ static int stub_writev(void *this_ptr, struct socket_io_vector *io_vec, unsigned
 	for (unsigned i = 0; i < 14; i++) verif_wr_hdr[i] = i < io_vec[0].iov_len ? ((const uint8_t *)io_vec[0].iov_base)[i] : 0;
 	verif_wr_payload = io_vec[1].iov_base;
 	verif_wr_payload_len = io_vec[1].iov_len;
+	if (verif_wr_check_window) { verif_wr_payload_readable = io_vec[1].iov_len == 0 || __CPROVER_r_ok(io_vec[1].iov_base, io_vec[1].iov_len); if (!verif_wr_payload_readable) return verif_wr_ret; }
 	if (io_vec[1].iov_len >= 2) { verif_wr_payload_copy[0] = ((const uint8_t *)io_vec[1].iov_base)[0]; verif_wr_payload_copy[1] = ((const uint8_t *)io_vec[1].iov_base)[1]; }
 	return verif_wr_ret;
 }
@@ -411,10 +415,23 @@ void h_ext_offer(void)
 	s.extension_compression.client_no_context_takeover = nondet_bool();
 	s.extension_compression.server_no_context_takeover = nondet_bool();
 	unsigned cmax0 = s.extension_compression.client_max_window_bits, smax0 = s.extension_compression.server_max_window_bits;
+#ifdef EXT_SINGLE
+	/* one offer (no comma) of exactly EXT_MAX bytes; shorter offers are the ones padded with white space */
+	size_t length = EXT_MAX;
+#else
 	size_t length = nondet_size();
 	__CPROVER_assume(length >= 1 && length <= EXT_MAX);
-	char *value = malloc(length);
-	__CPROVER_assume(value != NULL);
+#endif
+	/* the header value occupies the LAST `length` bytes of a constant-size object (cbmc's heap model is far cheaper for
+	 * constant sizes): a read behind the value is a read outside the object and fails a bounds obligation */
+	static char verif_hdr[EXT_MAX];
+	for (unsigned i = 0; i < EXT_MAX; i++) {
+		verif_hdr[i] = (char)nondet_u8();
+#ifdef EXT_SINGLE
+		__CPROVER_assume(verif_hdr[i] != ',');
+#endif
+	}
+	char *value = verif_hdr + (EXT_MAX - length);
 	check_websocket_extensions(&s, value, length);
 	if (s.extension_compression.accepted) {
 		__CPROVER_assert(s.extension_compression.response != NULL && strlen(s.extension_compression.response) <= 128, "C19.ext.response-fits-its-buffer");
@@ -424,7 +441,68 @@ void h_ext_offer(void)
 		(void)cmax0;
 		free(s.extension_compression.response);
 	}
-	free(value);
-	VERIF_COVER(s.extension_compression.accepted && length == 18, "bare permessage-deflate accepted");
-	VERIF_COVER(!s.extension_compression.accepted && length > 20, "offer refused");
+	VERIF_COVER(s.extension_compression.accepted, "an offer is accepted");
+	VERIF_COVER(!s.extension_compression.accepted, "offer refused");
+}
+
+/* ---- comp.sendframe (C19): an outgoing text/binary message with permessage-deflate negotiated ----------------
+ * send_frame -> websocket_compress -> deflate (ghost, see stubs/zlib_ghost.h).  The complete compressed form of the
+ * message is verif_need bytes (incl. the 00 00 FF FF tail); zlib decides how many - any value from 5 up to the
+ * assumed bound len + len/8 + len/64 + 16 (deflateBound plus flush marker). */
+#ifndef COMP_L
+#define COMP_L 8
+#endif
+static z_stream verif_defl; static z_stream *const verif_deflp = &verif_defl;
+void h_comp_sendframe(void)
+{
+	struct websocket s;
+	arbitrary_ws(&s, false);
+	__CPROVER_assume(s.is_server);
+	s.extension_compression.accepted = true;
+	s.extension_compression.compression_level = 1 + (nondet_uint() % 3);
+	s.extension_compression.strm_comp = &verif_deflp;
+#ifdef COMP_LEN_FIXED
+	/* a large message of fixed size whose compressed form may fall on either side of the 126 / 65536 header boundaries */
+	size_t length = COMP_LEN_FIXED;
+	uint8_t *payload = malloc(COMP_LEN_FIXED);
+	__CPROVER_assume(payload != NULL);
+#else
+	size_t length = nondet_size();
+	__CPROVER_assume(length <= COMP_L);
+	uint8_t payload[COMP_L + 1];
+#endif
+	unsigned type = nondet_bool() ? WS_TEXT_FRAME : WS_BINARY_FRAME;
+	verif_need = nondet_size();
+	__CPROVER_assume(verif_need >= 5 && verif_need <= length + (length >> 3) + (length >> 6) + 16);
+	verif_wr_check_window = true;
+	int r = send_frame(&s, payload, length, type);
+	if (verif_wr_calls > 0) {
+		__CPROVER_assert(verif_wr_payload_readable, "C19.send.payload-window-lies-inside-the-compression-buffer");
+		__CPROVER_assert(verif_wr_calls == 1 && verif_deflate_complete && verif_wr_payload_len == verif_need - 4, "C19.send.frame-carries-the-complete-block-without-its-tail");
+		/* the header announces the number of bytes that follow (the COMPRESSED size), minimally encoded (RFC 6455 5.2) */
+		size_t pl = verif_wr_payload_len; unsigned l7 = verif_wr_hdr[1] & 127;
+		bool len_ok = pl < 126 ? (l7 == pl && verif_wr_hdr_len == 2)
+			: pl < 65536 ? (l7 == 126 && verif_wr_hdr_len == 4 && (((size_t)verif_wr_hdr[2] << 8) | verif_wr_hdr[3]) == pl)
+			: (l7 == 127 && verif_wr_hdr_len == 10 && verif_wr_hdr[2] == 0 && verif_wr_hdr[3] == 0 && verif_wr_hdr[4] == 0 && verif_wr_hdr[5] == 0 &&
+			   ((((size_t)verif_wr_hdr[6]) << 24) | ((size_t)verif_wr_hdr[7] << 16) | ((size_t)verif_wr_hdr[8] << 8) | verif_wr_hdr[9]) == pl);
+		__CPROVER_assert(verif_wr_hdr[0] == (0x80 | 0x40 | type) && (verif_wr_hdr[1] & 0x80) == 0 && len_ok, "C19.send.compressed-frame-sets-rsv1-and-the-compressed-length");
+	}
+	/* RFC 7692 7.1.1.1: with server_no_context_takeover the peer may inflate every message with a fresh window, so each
+	 * message must be independent of the previous ones (Z_FULL_FLUSH); otherwise the window carries over (Z_SYNC_FLUSH) */
+	if (verif_deflate_calls > 0)
+		__CPROVER_assert(verif_deflate_calls == 1 && verif_deflate_flush == (s.extension_compression.server_no_context_takeover ? Z_FULL_FLUSH : Z_SYNC_FLUSH), "C19.send.context-is-dropped-exactly-when-server-no-context-takeover-was-negotiated");
+	__CPROVER_assert(verif_wr_calls == 1 || r < 0, "C19.send.unsent-message-is-reported-as-error");
+	__CPROVER_assert(verif_deflate_complete || verif_wr_calls == 0, "C19.send.incomplete-or-failed-compression-sends-nothing");
+#ifdef COMP_LEN_FIXED
+	free(payload);
+#endif
+#ifdef COMP_LEN_FIXED
+	VERIF_COVER(verif_wr_calls == 1 && verif_wr_payload_len == 126, "compressed form just reaches the 16-bit length form");
+	VERIF_COVER(verif_wr_calls == 1 && verif_wr_payload_len == 125, "compressed form fits the 7-bit length form");
+#else
+	VERIF_COVER(verif_wr_calls == 1 && length == 1, "one-byte message sent");
+	VERIF_COVER(verif_wr_calls == 1 && length == 0, "empty message sent");
+	VERIF_COVER(verif_wr_calls == 1 && length == COMP_L && verif_need == length + (length >> 3) + (length >> 6) + 16, "worst-case expansion sent");
+#endif
+	VERIF_COVER(verif_deflate_calls == 1 && !verif_deflate_complete, "deflate failed or ran out of space");
 }
